@@ -1,7 +1,8 @@
 (* C08 — the bond dimension never exceeds the user's cap. *)
+From Coq Require Import String.
 From Coq Require Import List Arith QArith Permutation.
 Import ListNotations.
-From Yaqs Require Import Base.Num Model.RankSelect Proofs.RankSelectP.
+From Yaqs Require Import Base.Num Model.RankSelect Proofs.RankSelectP Gen.RankGen Proofs.RankGenP.
 Local Open Scope nat_scope.
 
 (* every rank the two-site split can return, for ANY spectrum, threshold, number system (exact or binary64),
@@ -26,6 +27,37 @@ Theorem C08_svd_shift_bounded : forall s thr minb chi, (0 < thr)%Q -> Forall (fu
   (thr <= tail_weight QN s 0)%Q -> keep_tss QN s thr minb None <= Nat.max chi (Nat.min (length s) minb).
 Proof. exact tss_rank_bound. Qed.
 Print Assumptions C08_svd_shift_bounded.
+
+(* ---- tie to the source by translation: Gen/RankGen.v is regenerated from /repo on every run; the generated definitions are
+   proved equal to the model, and the bound is restated directly about them ---- *)
+Theorem C08_source_split_is_model_dw : forall (N : Num) s dyn thr minb maxb,
+  split_keep N s dyn "discarded_weight"%string thr minb maxb = keep_dw N s thr minb maxb dyn.
+Proof. exact split_keep_dw. Qed.
+Print Assumptions C08_source_split_is_model_dw.
+Theorem C08_source_split_is_model_relative : forall (N : Num) s dyn thr minb maxb,
+  split_keep N s dyn "relative"%string thr minb maxb = keep_rel N s thr minb maxb.
+Proof. exact split_keep_rel. Qed.
+Print Assumptions C08_source_split_is_model_relative.
+Theorem C08_source_two_site_svd_is_model : forall (N : Num) s thr mb minb, tss_keep N s thr mb minb = keep_tss N s thr minb mb.
+Proof. exact tss_keep_eq. Qed.
+Print Assumptions C08_source_two_site_svd_is_model.
+Theorem C08_source_truncated_right_svd_is_model : forall (N : Num) s thr mb, trs_keep N s thr mb = keep_trs N s thr mb.
+Proof. exact trs_keep_eq. Qed.
+Print Assumptions C08_source_truncated_right_svd_is_model.
+Theorem C08_source_split_bounded_dw : forall (N : Num) s dyn thr minb maxb,
+  split_keep N s dyn "discarded_weight"%string thr minb maxb <= Nat.max maxb (Nat.min (List.length s) minb).
+Proof. exact source_split_bounded_dw. Qed.
+Print Assumptions C08_source_split_bounded_dw.
+Theorem C08_source_split_bounded_relative : forall (N : Num) s dyn thr minb maxb,
+  split_keep N s dyn "relative"%string thr minb maxb <= Nat.max maxb minb.
+Proof. exact source_split_bounded_rel. Qed.
+Print Assumptions C08_source_split_bounded_relative.
+Theorem C08_source_two_site_svd_bounded : forall (N : Num) s thr minb m, tss_keep N s thr (Some m) minb <= m.
+Proof. exact source_tss_bounded. Qed.
+Print Assumptions C08_source_two_site_svd_bounded.
+Theorem C08_source_truncated_right_svd_bounded : forall (N : Num) s thr m, trs_keep N s thr (Some m) <= m.
+Proof. exact source_trs_bounded. Qed.
+Print Assumptions C08_source_truncated_right_svd_bounded.
 
 (* invariant over every sequence of operations with adversarially chosen spectra: each bond stays below
    max(cap, min_bond_dim, its initial value) *)
